@@ -2,6 +2,7 @@ package props
 
 import (
 	"bytes"
+	"context"
 	"fmt"
 	"strconv"
 	"strings"
@@ -13,8 +14,13 @@ import (
 	metav1 "k8s.io/apimachinery/pkg/apis/meta/v1"
 	"k8s.io/client-go/tools/leaderelection/resourcelock"
 
+	pb "github.com/kubewharf/kubebrain-client/api/v2rpc"
+	"google.golang.org/grpc/codes"
+	"google.golang.org/grpc/status"
+
 	"github.com/kubewharf/kubebrain/pkg/backend"
 	"github.com/kubewharf/kubebrain/pkg/backend/coder"
+	"github.com/kubewharf/kubebrain/pkg/server"
 
 	"verif/internal/harness"
 )
@@ -30,12 +36,23 @@ func init() {
 				Rule: "one case = an old leader elected through the real resourcelock.Interface (Get->Create, then the on-elected action of pkg/server/service/leader: parse the engine timestamp from Describe() and SetCurrentRevision), a PRNG history with bursts of failed writes (which consume revisions without touching the engine) and occasional lock renewals, the old leader stopping after a PRNG request, then a new backend over the same store (fail-over on memkv/TiKV mock/Badger — in half of the fail-over cases the new leader has been serving concurrent follower reads, i.e. adopting the old leader's revision from 8 goroutines, all along; close+reopen of the Badger directory for restart) elected the same way (Get->Update). " +
 					"oracle: the new leader's start revision and the first revisions it hands out exceed every revision in the engine dump (version keys and index values); guarded update/delete of pre-existing keys at their current revision succeed; List(rev=0) on the new leader equals the reference state. " +
 					"non-trivial = history with >=3 failed writes and >=2 keys alive at the hand-over; distinct by (engine, outcome vector)",
-				Assumptions: []string{"the election is driven in-process in client-go's call order and the on-elected action of leader.go is applied by the harness (the real Campaign loop cannot be stopped without killing the process)",
+				Assumptions: []string{"in 7 of 8 cases the election is driven in-process in client-go's call order and the on-elected action of leader.go is applied by the harness (the real Campaign loop cannot be stopped without killing the process); every 8th case restarts the node through the REAL Campaign / on-elected callback (server.NewServer) and talks to it over gRPC",
 					"lease timing is not modelled: the old leader is simply never heard from again"},
 				MinConcl: pick(tier, 36, 1000)}
 		},
-		Name: func(c *harness.Case) string { return "handover-" + c15Engines[c.Index%len(c15Engines)] },
-		Run:  runC15,
+		Name: func(c *harness.Case) string {
+			if c.Index%8 == 7 {
+				return "restart-through-real-campaign"
+			}
+			return "handover-" + c15Engines[c.Index%len(c15Engines)]
+		},
+		Run: func(c *harness.Case) {
+			if c.Index%8 == 7 {
+				runC15RealCampaign(c)
+				return
+			}
+			runC15(c)
+		},
 	}
 }
 
@@ -309,4 +326,108 @@ func runC15(c *harness.Case) {
 		c.R.Sample = map[string]interface{}{"engine": kind, "old_start": va, "old_dealt": dealtA, "max_stored": maxStored, "new_start": vb, "failed_writes": s.nFail, "ops": nOps}
 	}
 	_ = bytes.Equal
+}
+
+// runC15RealCampaign: the take-over goes through the REAL election loop and on-elected callback of
+// pkg/server/service/leader (server.NewServer starts Campaign); requests go through the node's gRPC services,
+// which gate on IsLeader(). A writer fires as soon as the node accepts writes. The metrics sink is slow for the
+// gauge emitted inside the callback (a sink is allowed to be slow), which stretches the callback.
+func runC15RealCampaign(c *harness.Case) {
+	r := c.Rng
+	kind := []string{"memkv", "badger", "tikv"}[r.Intn(3)]
+	eng, err := harness.NewEngine(kind)
+	if err != nil {
+		c.Inconclusive(err.Error())
+		return
+	}
+	defer eng.Close()
+	id := "node-a:2380"
+	a := harness.NewNode(harness.NodeOpts{KV: eng.KV, SkipInit: true, Config: backend.Config{Identity: id}})
+	va, err := elect(a, id)
+	if err != nil {
+		c.Inconclusive("old leader could not be elected: " + err.Error())
+		return
+	}
+	s := &seqCtx{c: c, n: a, m: harness.NewModel()}
+	for _, nm := range []string{"/a", "/b", "/c/d"} {
+		s.keys = append(s.keys, harness.Prefix+nm)
+	}
+	for i := 0; i < 10+r.Intn(30); i++ {
+		op := s.genOp(r, false)
+		if op.Kind == "update" && op.Exp > a.Dealt() {
+			op.Exp = 0
+		}
+		if len(op.Val) > 32 {
+			op.Val = op.Val[:32]
+		}
+		if !s.write(op, "C15") {
+			return
+		}
+	}
+	if c.R.Verdict == "violated" {
+		c.R.Verdict, c.R.Violations = "inconclusive", nil
+		c.R.Inconclusive = "old leader's history disagreed with the reference"
+		return
+	}
+	maxStored := a.Dealt()
+	a.Retire()
+	// the same node restarts (same identity: client-go re-acquires its own lease at once)
+	rm := harness.NewRecMetrics(false)
+	rm.Slow = map[string]time.Duration{"leader.election.initial.version": 30 * time.Millisecond, "leader.election.success": 5 * time.Millisecond}
+	b := harness.NewNode(harness.NodeOpts{KV: eng.KV, SkipInit: true, Metrics: rm, Config: backend.Config{Identity: id}})
+	defer b.Retire()
+	srv := server.NewServer(b.B, rm, server.Config{}) // starts the real Campaign
+	g, gerr := newGRPCNodeFor(srv.RegisterClient, rm)
+	if gerr != nil {
+		c.Inconclusive("grpc: " + gerr.Error())
+		return
+	}
+	defer g.close()
+	// writer: as soon as the node accepts a write, the revision it hands out must exceed everything stored
+	deadline := time.Now().Add(40 * time.Second)
+	var first *pb.CreateResponse
+	attempts := 0
+	for time.Now().Before(deadline) {
+		attempts++
+		resp, err := g.brainGRPC.Create(context.Background(), &pb.CreateRequest{Key: []byte(harness.Prefix + "/zz-first"), Value: []byte("n")})
+		if err == nil {
+			first = resp
+			break
+		}
+		if status.Code(err) != codes.Unavailable {
+			c.Violatef("C15 first-write-after-takeover-failed engine="+kind, s.witness(), "the first write accepted by the restarted node failed: %v (old leader dealt up to %d)", err, maxStored)
+			return
+		}
+		time.Sleep(200 * time.Microsecond)
+	}
+	if first == nil {
+		c.Inconclusive("the restarted node did not become leader within the watchdog")
+		return
+	}
+	wit := func() interface{} {
+		w := s.witness().(map[string]interface{})
+		w["old_leader_start_revision"], w["old_leader_last_dealt"], w["first_response"] = va, maxStored, first.String()
+		return w
+	}
+	if !first.Succeeded || first.Header.GetRevision() <= maxStored {
+		c.Violatef("C15 first-revision-not-above-stored engine="+kind+" path=real-campaign", wit(), "the first write the restarted node accepted (after %d refused attempts) was stamped revision %d; the store already holds revision %d", attempts, first.Header.GetRevision(), maxStored)
+		return
+	}
+	// guarded writes on pre-existing keys must work
+	for _, k := range s.keys {
+		if live := s.m.Live(k); live != nil {
+			resp, err := g.brainGRPC.Update(context.Background(), &pb.UpdateRequest{Kv: &pb.KeyValue{Key: []byte(k), Value: []byte("after-restart"), Revision: live.Rev}})
+			if err != nil || !resp.Succeeded {
+				c.Violatef("C15 guarded-write-on-existing-key-fails-on-new-leader engine="+kind+" path=real-campaign", wit(), "update(%q, exp=%d) on the restarted node: %v %v", k, live.Rev, resp, err)
+				return
+			}
+		}
+	}
+	c.Stat("real_campaign_takeovers", 1)
+	c.Stat("writes_refused_before_leadership", int64(attempts-1))
+	c.AddSet("engines", "real-campaign-"+kind)
+	c.Fingerprint(attempts > 1, "real-campaign", kind, c.Index)
+	if c.Index < 12 {
+		c.R.Sample = map[string]interface{}{"engine": kind, "path": "real campaign", "old_dealt": maxStored, "first_revision": first.Header.GetRevision(), "refused_attempts": attempts - 1}
+	}
 }
